@@ -68,3 +68,13 @@ check("C08", "exploration",
       "Only read patterns a conforming io.Reader/net.Conn may produce are used.",
       "runtime monitoring: same executions under perturbed transport segmentation, trace equality oracle",
       "DESIGN.md 3/C08")
+check("C09", "exploration",
+      "Runs streamed INSERTs with generated OnInput histories (append, reset+append reusing the backing memory, nil, EOF with/without leftover rows, wrapped EOF, error; initial rows or not) over zero-copy and copying column sets and all compression modes; the harness snapshots the columns at the start of each round and the reference codec parses the Data blocks from the bytes copied at Write time: they must be exactly the snapshots in order followed by one terminator (tail rows included, nothing after a callback error). Exhaustive for short histories over a fixed list of column sets, random beyond. Held = wire blocks equal the snapshots for every history run.",
+      "Snapshots are taken inside OnInput before mutation; Write calls are recorded by copying.",
+      "runtime monitoring: wire blocks recorded at the connection boundary compared with per-round snapshots",
+      "DESIGN.md 3/C09")
+check("C13", "fault_enumeration",
+      "Performs real handshakes (Connect and Dial) over simulated connections for client/server revision pairs at every feature-threshold neighbour and for every failing answer kind (exception, wrong packets, garbage, hello cut after every byte with EOF/reset, immediate EOF, silence until a short handshake timeout, hello delayed by read-deadline expiries). After success a follow-up Ping and query are parsed by the reference codec at min(c,s) and a Progress packet encoded at min(c,s) must decode exactly; ServerInfo, addendum and hello fields are compared; after failure: error (carrying the exception), nil client, dialed connection closed, no library goroutine left. Held = all configurations and fault points tried behaved so.",
+      "Short real handshake timeouts are used only to reach the timeout path; verdicts never depend on elapsed time.",
+      "runtime monitoring: fault-injected handshakes with boundary recording and goroutine-leak detection",
+      "DESIGN.md 3/C13")
